@@ -21,38 +21,38 @@ package ro
 //@   sync observers
 
 //@ func (*publishSubjectImpl).NextWithContext
-//@   props C01 C02 C10 C13 C09 C06
+//@   props C01 C02 C10 C13 C09 C06 C11
 //@   binds ctx value
 //@   scope ctx err mu observerIndex observers s status value
 //@   ensures [one-critical-section|C02,C10,C13] count(lock.mu) == 1
 //@   inline (*publishSubjectImpl).broadcastNext
 //@   track observers.* elem.* hook.* call.NewNotification*
-//@   ensures [open-broadcasts-to-all|C01,C10,C09] atlock(status) == 0 ==> trace(observers.Range, elem.NextWithContext(ctx, value), observers.RangeEnd)
+//@   ensures [open-broadcasts-to-all|C01,C10,C09,C11] atlock(status) == 0 ==> trace(observers.Range, elem.NextWithContext(ctx, value), observers.RangeEnd)
 //@   ensures [closed-drops|C01,C10,C09] atlock(status) != 0 ==> trace(call.NewNotificationNext(value), hook.OnDroppedNotification(ctx, _))
 //@   ensures [broadcast-under-lock|C02,C10,C13] heldat(mu, elem.NextWithContext)
 //@   ensures [state-unchanged|C10,C09] atunlock(status) == atlock(status) && atunlock(err).A == atlock(err).A && atunlock(err).B == atlock(err).B
 //@   ensures [a-closed-subject-keeps-its-stored-terminal|C10,C09,C01] atlock(status) != 0 ==> atunlock(status) == atlock(status) && atunlock(err).A == atlock(err).A && atunlock(err).B == atlock(err).B
 
 //@ func (*publishSubjectImpl).ErrorWithContext
-//@   props C01 C02 C10 C13 C09 C06
+//@   props C01 C02 C10 C13 C09 C06 C11
 //@   binds ctx err
 //@   scope ctx err mu observerIndex observers s status
 //@   ensures [one-critical-section|C02,C10,C13] count(lock.mu) == 1
 //@   inline (*publishSubjectImpl).broadcastError (*publishSubjectImpl).unsubscribeAll
 //@   track observers.* elem.* hook.* call.NewNotification*
-//@   ensures [open-stores-broadcasts-clears|C01,C10,C09] atlock(status) == 0 ==> atunlock(status) == 1 && atunlock(err).A == ctx && atunlock(err).B == err && trace(observers.Range, elem.ErrorWithContext(ctx, err), observers.RangeEnd, observers.Range, observers.Delete(_), observers.RangeEnd)
+//@   ensures [open-stores-broadcasts-clears|C01,C10,C09,C11] atlock(status) == 0 ==> atunlock(status) == 1 && atunlock(err).A == ctx && atunlock(err).B == err && trace(observers.Range, elem.ErrorWithContext(ctx, err), observers.RangeEnd, observers.Range, observers.Delete(_), observers.RangeEnd)
 //@   ensures [closed-drops|C01,C10,C09] atlock(status) != 0 ==> trace(call.NewNotificationError(err), hook.OnDroppedNotification(ctx, _), observers.Range, observers.Delete(_), observers.RangeEnd)
 //@   ensures [broadcast-under-lock|C02,C10,C13] heldat(mu, elem.ErrorWithContext)
 //@   ensures [a-closed-subject-keeps-its-stored-terminal|C10,C09,C01] atlock(status) != 0 ==> atunlock(status) == atlock(status) && atunlock(err).A == atlock(err).A && atunlock(err).B == atlock(err).B
 
 //@ func (*publishSubjectImpl).CompleteWithContext
-//@   props C01 C02 C10 C13 C09 C06
+//@   props C01 C02 C10 C13 C09 C06 C11
 //@   binds ctx
 //@   scope ctx err mu observerIndex observers s status
 //@   ensures [one-critical-section|C02,C10,C13] count(lock.mu) == 1
 //@   inline (*publishSubjectImpl).broadcastComplete (*publishSubjectImpl).unsubscribeAll
 //@   track observers.* elem.* hook.* call.NewNotification*
-//@   ensures [open-stores-broadcasts-clears|C01,C10,C09] atlock(status) == 0 ==> atunlock(status) == 2 && trace(observers.Range, elem.CompleteWithContext(ctx), observers.RangeEnd, observers.Range, observers.Delete(_), observers.RangeEnd)
+//@   ensures [open-stores-broadcasts-clears|C01,C10,C09,C11] atlock(status) == 0 ==> atunlock(status) == 2 && trace(observers.Range, elem.CompleteWithContext(ctx), observers.RangeEnd, observers.Range, observers.Delete(_), observers.RangeEnd)
 //@   ensures [closed-drops|C01,C10,C09] atlock(status) != 0 ==> trace(call.NewNotificationComplete(), hook.OnDroppedNotification(ctx, _), observers.Range, observers.Delete(_), observers.RangeEnd)
 //@   ensures [broadcast-under-lock|C02,C10,C13] heldat(mu, elem.CompleteWithContext)
 //@   ensures [a-closed-subject-keeps-its-stored-terminal|C10,C09,C01] atlock(status) != 0 ==> atunlock(status) == atlock(status) && atunlock(err).A == atlock(err).A && atunlock(err).B == atlock(err).B
@@ -104,7 +104,7 @@ package ro
 //@   sync observers
 
 //@ func (*behaviorSubjectImpl).NextWithContext
-//@   props C01 C02 C10 C13 C09 C06
+//@   props C01 C02 C10 C13 C09 C06 C11
 //@   binds ctx value
 //@   scope ctx err last mu observerIndex observers s status value
 //@   ensures [one-critical-section|C02,C10,C13] count(lock.mu) == 1
@@ -117,25 +117,25 @@ package ro
 //@   ensures [a-closed-subject-keeps-its-stored-terminal|C10,C09,C01] atlock(status) != 0 ==> atunlock(status) == atlock(status) && atunlock(err).A == atlock(err).A && atunlock(err).B == atlock(err).B && atunlock(last).A == atlock(last).A && atunlock(last).B == atlock(last).B
 
 //@ func (*behaviorSubjectImpl).ErrorWithContext
-//@   props C01 C02 C10 C13 C09 C06
+//@   props C01 C02 C10 C13 C09 C06 C11
 //@   binds ctx err
 //@   scope ctx err last mu observerIndex observers s status
 //@   ensures [one-critical-section|C02,C10,C13] count(lock.mu) == 1
 //@   inline (*behaviorSubjectImpl).broadcastError (*behaviorSubjectImpl).unsubscribeAll
 //@   track observers.* elem.* hook.* call.NewNotification*
-//@   ensures [open-stores-broadcasts-clears|C01,C10,C09] atlock(status) == 0 ==> atunlock(status) == 1 && atunlock(err).A == ctx && atunlock(err).B == err && trace(observers.Range, elem.ErrorWithContext(ctx, err), observers.RangeEnd, observers.Range, observers.Delete(_), observers.RangeEnd)
+//@   ensures [open-stores-broadcasts-clears|C01,C10,C09,C11] atlock(status) == 0 ==> atunlock(status) == 1 && atunlock(err).A == ctx && atunlock(err).B == err && trace(observers.Range, elem.ErrorWithContext(ctx, err), observers.RangeEnd, observers.Range, observers.Delete(_), observers.RangeEnd)
 //@   ensures [closed-drops|C01,C10,C09] atlock(status) != 0 ==> trace(call.NewNotificationError(err), hook.OnDroppedNotification(ctx, _), observers.Range, observers.Delete(_), observers.RangeEnd)
 //@   ensures [broadcast-under-lock|C02,C10,C13] heldat(mu, elem.ErrorWithContext)
 //@   ensures [a-closed-subject-keeps-its-stored-terminal|C10,C09,C01] atlock(status) != 0 ==> atunlock(status) == atlock(status) && atunlock(err).A == atlock(err).A && atunlock(err).B == atlock(err).B && atunlock(last).A == atlock(last).A && atunlock(last).B == atlock(last).B
 
 //@ func (*behaviorSubjectImpl).CompleteWithContext
-//@   props C01 C02 C10 C13 C09 C06
+//@   props C01 C02 C10 C13 C09 C06 C11
 //@   binds ctx
 //@   scope ctx err last mu observerIndex observers s status
 //@   ensures [one-critical-section|C02,C10,C13] count(lock.mu) == 1
 //@   inline (*behaviorSubjectImpl).broadcastComplete (*behaviorSubjectImpl).unsubscribeAll
 //@   track observers.* elem.* hook.* call.NewNotification*
-//@   ensures [open-stores-broadcasts-clears|C01,C10,C09] atlock(status) == 0 ==> atunlock(status) == 2 && trace(observers.Range, elem.CompleteWithContext(ctx), observers.RangeEnd, observers.Range, observers.Delete(_), observers.RangeEnd)
+//@   ensures [open-stores-broadcasts-clears|C01,C10,C09,C11] atlock(status) == 0 ==> atunlock(status) == 2 && trace(observers.Range, elem.CompleteWithContext(ctx), observers.RangeEnd, observers.Range, observers.Delete(_), observers.RangeEnd)
 //@   ensures [closed-drops|C01,C10,C09] atlock(status) != 0 ==> trace(call.NewNotificationComplete(), hook.OnDroppedNotification(ctx, _), observers.Range, observers.Delete(_), observers.RangeEnd)
 //@   ensures [broadcast-under-lock|C02,C10,C13] heldat(mu, elem.CompleteWithContext)
 //@   ensures [a-closed-subject-keeps-its-stored-terminal|C10,C09,C01] atlock(status) != 0 ==> atunlock(status) == atlock(status) && atunlock(err).A == atlock(err).A && atunlock(err).B == atlock(err).B && atunlock(last).A == atlock(last).A && atunlock(last).B == atlock(last).B
@@ -187,7 +187,7 @@ package ro
 //@   sync observers
 
 //@ func (*asyncSubjectImpl).NextWithContext
-//@   props C01 C02 C10 C13 C09 C06
+//@   props C01 C02 C10 C13 C09 C06 C11
 //@   binds ctx value
 //@   scope ctx err hasValue mu observerIndex observers s status value
 //@   ensures [one-critical-section|C02,C10,C13] count(lock.mu) == 1
@@ -198,19 +198,19 @@ package ro
 //@   ensures [a-closed-subject-keeps-its-stored-terminal|C10,C09,C01] atlock(status) != 0 ==> atunlock(status) == atlock(status) && atunlock(err).A == atlock(err).A && atunlock(err).B == atlock(err).B && atunlock(hasValue) == atlock(hasValue) && atunlock(value).A == atlock(value).A && atunlock(value).B == atlock(value).B
 
 //@ func (*asyncSubjectImpl).ErrorWithContext
-//@   props C01 C02 C10 C13 C09 C06
+//@   props C01 C02 C10 C13 C09 C06 C11
 //@   binds ctx err
 //@   scope ctx err hasValue mu observerIndex observers s status value
 //@   ensures [one-critical-section|C02,C10,C13] count(lock.mu) == 1
 //@   inline (*asyncSubjectImpl).broadcastError (*asyncSubjectImpl).unsubscribeAll
 //@   track observers.* elem.* hook.* call.NewNotification*
-//@   ensures [open-stores-broadcasts-clears|C01,C10,C09] atlock(status) == 0 ==> atunlock(status) == 1 && atunlock(err).A == ctx && atunlock(err).B == err && trace(observers.Range, elem.ErrorWithContext(ctx, err), observers.RangeEnd, observers.Range, observers.Delete(_), observers.RangeEnd)
+//@   ensures [open-stores-broadcasts-clears|C01,C10,C09,C11] atlock(status) == 0 ==> atunlock(status) == 1 && atunlock(err).A == ctx && atunlock(err).B == err && trace(observers.Range, elem.ErrorWithContext(ctx, err), observers.RangeEnd, observers.Range, observers.Delete(_), observers.RangeEnd)
 //@   ensures [closed-drops|C01,C10,C09] atlock(status) != 0 ==> trace(call.NewNotificationError(err), hook.OnDroppedNotification(ctx, _), observers.Range, observers.Delete(_), observers.RangeEnd)
 //@   ensures [broadcast-under-lock|C02,C10,C13] heldat(mu, elem.ErrorWithContext)
 //@   ensures [a-closed-subject-keeps-its-stored-terminal|C10,C09,C01] atlock(status) != 0 ==> atunlock(status) == atlock(status) && atunlock(err).A == atlock(err).A && atunlock(err).B == atlock(err).B && atunlock(hasValue) == atlock(hasValue) && atunlock(value).A == atlock(value).A && atunlock(value).B == atlock(value).B
 
 //@ func (*asyncSubjectImpl).CompleteWithContext
-//@   props C01 C02 C10 C13 C09 C06
+//@   props C01 C02 C10 C13 C09 C06 C11
 //@   binds ctx
 //@   scope ctx err hasValue mu observerIndex observers s status value
 //@   ensures [one-critical-section|C02,C10,C13] count(lock.mu) == 1
@@ -278,7 +278,7 @@ package ro
 //@   requires s.bufferSize >= -1
 //@   inline (*replaySubjectImpl).broadcastNext
 //@   track observers.* elem.* hook.* call.NewNotification*
-//@   ensures [open-broadcasts-to-all|C01,C10,C09] atlock(status) == 0 ==> called(elem.NextWithContext) && arg(elem.NextWithContext, 0) == ctx && arg(elem.NextWithContext, 1) == value
+//@   ensures [open-broadcasts-to-all|C01,C10,C09,C11] atlock(status) == 0 ==> called(elem.NextWithContext) && arg(elem.NextWithContext, 0) == ctx && arg(elem.NextWithContext, 1) == value
 //@   ensures [open-appends-when-room|C10,C09] atlock(status) == 0 && (s.bufferSize == -1 || len(atlock(values)) + 1 <= s.bufferSize) ==> len(atunlock(values)) == len(atlock(values)) + 1 && atunlock(values)[len(atlock(values))].A == ctx && atunlock(values)[len(atlock(values))].B == value && forall(j, 0, len(atlock(values)), atunlock(values)[j] == atlock(values)[j])
 //@   ensures [open-keeps-last-n-when-full|C10,C09] atlock(status) == 0 && s.bufferSize != -1 && s.bufferSize >= 1 && len(atlock(values)) + 1 > s.bufferSize ==> len(atunlock(values)) == s.bufferSize && atunlock(values)[s.bufferSize - 1].A == ctx && atunlock(values)[s.bufferSize - 1].B == value && forall(j, 0, s.bufferSize - 1, atunlock(values)[j] == atlock(values)[j + len(atlock(values)) + 1 - s.bufferSize])
 //@   ensures [a-buffer-of-size-zero-keeps-nothing|C10,C11] atlock(status) == 0 && s.bufferSize == 0 ==> len(atunlock(values)) == 0
@@ -288,25 +288,25 @@ package ro
 //@   ensures [a-closed-subject-keeps-its-stored-terminal|C10,C09,C01] atlock(status) != 0 ==> atunlock(status) == atlock(status) && atunlock(err).A == atlock(err).A && atunlock(err).B == atlock(err).B && len(atunlock(values)) == len(atlock(values))
 
 //@ func (*replaySubjectImpl).ErrorWithContext
-//@   props C01 C02 C10 C13 C09 C06
+//@   props C01 C02 C10 C13 C09 C06 C11
 //@   binds ctx err
 //@   scope bufferSize ctx err mu observerIndex observers s status values
 //@   ensures [one-critical-section|C02,C10,C13] count(lock.mu) == 1
 //@   inline (*replaySubjectImpl).broadcastError (*replaySubjectImpl).unsubscribeAll
 //@   track observers.* elem.* hook.* call.NewNotification*
-//@   ensures [open-stores-broadcasts-clears|C01,C10,C09] atlock(status) == 0 ==> atunlock(status) == 1 && atunlock(err).A == ctx && atunlock(err).B == err && trace(observers.Range, elem.ErrorWithContext(ctx, err), observers.RangeEnd, observers.Range, observers.Delete(_), observers.RangeEnd)
+//@   ensures [open-stores-broadcasts-clears|C01,C10,C09,C11] atlock(status) == 0 ==> atunlock(status) == 1 && atunlock(err).A == ctx && atunlock(err).B == err && trace(observers.Range, elem.ErrorWithContext(ctx, err), observers.RangeEnd, observers.Range, observers.Delete(_), observers.RangeEnd)
 //@   ensures [closed-drops|C01,C10,C09] atlock(status) != 0 ==> trace(call.NewNotificationError(err), hook.OnDroppedNotification(ctx, _), observers.Range, observers.Delete(_), observers.RangeEnd)
 //@   ensures [broadcast-under-lock|C02,C10,C13] heldat(mu, elem.ErrorWithContext)
 //@   ensures [a-closed-subject-keeps-its-stored-terminal|C10,C09,C01] atlock(status) != 0 ==> atunlock(status) == atlock(status) && atunlock(err).A == atlock(err).A && atunlock(err).B == atlock(err).B && len(atunlock(values)) == len(atlock(values))
 
 //@ func (*replaySubjectImpl).CompleteWithContext
-//@   props C01 C02 C10 C13 C09 C06
+//@   props C01 C02 C10 C13 C09 C06 C11
 //@   binds ctx
 //@   scope bufferSize ctx err mu observerIndex observers s status values
 //@   ensures [one-critical-section|C02,C10,C13] count(lock.mu) == 1
 //@   inline (*replaySubjectImpl).broadcastComplete (*replaySubjectImpl).unsubscribeAll
 //@   track observers.* elem.* hook.* call.NewNotification*
-//@   ensures [open-stores-broadcasts-clears|C01,C10,C09] atlock(status) == 0 ==> atunlock(status) == 2 && trace(observers.Range, elem.CompleteWithContext(ctx), observers.RangeEnd, observers.Range, observers.Delete(_), observers.RangeEnd)
+//@   ensures [open-stores-broadcasts-clears|C01,C10,C09,C11] atlock(status) == 0 ==> atunlock(status) == 2 && trace(observers.Range, elem.CompleteWithContext(ctx), observers.RangeEnd, observers.Range, observers.Delete(_), observers.RangeEnd)
 //@   ensures [closed-drops|C01,C10,C09] atlock(status) != 0 ==> trace(call.NewNotificationComplete(), hook.OnDroppedNotification(ctx, _), observers.Range, observers.Delete(_), observers.RangeEnd)
 //@   ensures [broadcast-under-lock|C02,C10,C13] heldat(mu, elem.CompleteWithContext)
 //@   ensures [a-closed-subject-keeps-its-stored-terminal|C10,C09,C01] atlock(status) != 0 ==> atunlock(status) == atlock(status) && atunlock(err).A == atlock(err).A && atunlock(err).B == atlock(err).B && len(atunlock(values)) == len(atlock(values))
